@@ -118,7 +118,15 @@ def alg3Counts (n : Nat) (id1 id2 id3 s12 s13 s23 : Bool) : Nat × Nat × Nat ×
 
 def orDash (k : Nat) (x : String) : String := if k = 0 then "-" else rep k x
 
-def modelAlg3 (n1 n2 n3 : String) (l1 l2 l3 : Layout) (v w u : List Int) : String :=
+/-- numbers of runs of the partially aliased fields f3a, f3b, f3c, trw -/
+def alg3Counts2 (cs : String) (n : Nat) (id1 id2 id3 s12 s13 s23 : Bool) : Nat × Nat × Nat × Nat :=
+  let m1 := if n ≥ 2 ∧ id1 then 2 else 1
+  let m2 := if n ≥ 2 ∧ id2 then 2 else 1
+  let m3 := if n ≥ 2 ∧ id3 then 2 else 1
+  (if s13 then 4 * m1 * (2 * m2) else 0, if s23 then 4 * (2 * m1) * m2 else 0, if s12 then 4 * m1 * (2 * m3) else 0,
+   if s13 ∧ n ≥ 2 ∧ !cs.startsWith "devicen" then 2 * (2 * m2) else 0)
+
+def modelAlg3 (cs n1 n2 n3 : String) (l1 l2 l3 : Layout) (v w u : List Int) : String :=
   let n := l1.length
   let p1 := fn v; let p2 := fn w; let p3 := fn u
   let (ctr2, ctrs, cfe3, m1, self) := alg3Counts n (l1 == identity n) (l2 == identity n) (l3 == identity n) (n1 == n2) (n1 == n3) (n2 == n3)
@@ -138,8 +146,13 @@ def modelAlg3 (n1 n2 n3 : String) (l1 l2 l3 : Layout) (v w u : List Int) : Strin
   let genp := toList n (staticGenerate l1 p1 (fun s => 100 + (s : Int)))
   let sk (k : Nat) := if self then k else 0
   let pk := if self ∧ m1 = 2 then 2 else 0
+  let (ca, cb, cc, cw) := alg3Counts2 cs n (l1 == identity n) (l2 == identity n) (l3 == identity n) (n1 == n2) (n1 == n3) (n2 == n3)
+  let f3a := (visitTriples l1 l2 l1).map (fun (a, b, c) => (p1 a * 1000 + p2 b) * 1000 + p1 c)
+  let f3b := (visitTriples l1 l2 l2).map (fun (a, b, c) => (p1 a * 1000 + p2 b) * 1000 + p2 c)
+  let f3c := (visitTriples l1 l1 l3).map (fun (a, b, c) => (p1 a * 1000 + p1 b) * 1000 + p3 c)
+  let trw := toList n (staticTransform2Acc1 l1 l2 p1 p2 f)
   if !(okAlias1 && okAlias2 && okSelf) then "model-aliased-variants-differ" else
-  s!"tr2={rep ctr2 (showComma tr2)} trs={orDash ctrs (showComma trs)} fe3={rep cfe3 (showComma fe3)} fes2={orDash (sk (4 * m1)) (showComma fes2)} fes3={orDash (sk (8 * m1)) (showComma fes3)} eqs={orDash (sk (4 * m1)) (b01 (staticEqual l1 l1 p1 p1))} cps={orDash (sk (2 * m1)) (showComma cps)} fillp={orDash pk (showComma fillp)} genp={orDash pk (showComma genp)}"
+  s!"f3a={orDash ca (showComma f3a)} f3b={orDash cb (showComma f3b)} f3c={orDash cc (showComma f3c)} trw={orDash cw (showComma trw)} tr2={rep ctr2 (showComma tr2)} trs={orDash ctrs (showComma trs)} fe3={rep cfe3 (showComma fe3)} fes2={orDash (sk (4 * m1)) (showComma fes2)} fes3={orDash (sk (8 * m1)) (showComma fes3)} eqs={orDash (sk (4 * m1)) (b01 (staticEqual l1 l1 p1 p1))} cps={orDash (sk (2 * m1)) (showComma cps)} fillp={orDash pk (showComma fillp)} genp={orDash pk (showComma genp)}"
 
 def modelSpare (t dlName sm slName : String) (dl sl : Layout) (raw : Nat) (v : List Int) : String :=
   match spareSet t with
@@ -177,12 +190,12 @@ def model (line : String) : String :=
     | some l1, some l2, some v, some w =>
       if v.length ≠ l1.length ∨ w.length ≠ l2.length ∨ l1.length ≠ l2.length then "bad-op" else modelAlg l1 l2 v w
     | _, _, _, _ => "bad-op"
-  | "alg3" :: _ :: _ :: n1 :: n2 :: n3 :: rest =>
+  | "alg3" :: cs :: _ :: n1 :: n2 :: n3 :: rest =>
     let (a, b, c) := splitBar3 rest
     match layoutOf n1, layoutOf n2, layoutOf n3, ints a, ints b, ints c with
     | some l1, some l2, some l3, some v, some w, some u =>
       if v.length ≠ l1.length ∨ w.length ≠ l1.length ∨ u.length ≠ l1.length ∨ l2.length ≠ l1.length ∨ l3.length ≠ l1.length then "bad-op"
-      else modelAlg3 n1 n2 n3 l1 l2 l3 v w u
+      else modelAlg3 cs n1 n2 n3 l1 l2 l3 v w u
     | _, _, _, _, _, _ => "bad-op"
   | "spare" :: _ :: t :: dl :: sm :: sl :: raw :: rest =>
     match layoutOf dl, layoutOf sl, raw.toNat?, ints rest with
@@ -279,7 +292,7 @@ def judgeAlg (m1 m2 : Layout) (v w : List Int) (ows : List String) : String :=
 /-- Spec for `alg3`: EVERY run (whatever the three layouts, constness, pixel models, aliasing) pairs by colour:
     transform result colour c = f(src1[c], src2[c]) in the destination's memory order; each for_each call gets one colour of all
     three bases and every colour occurs once; x == x; copying x to itself keeps it; fill / generate reach every channel -/
-def judgeAlg3 (n1 n2 n3 : String) (m1 m2 m3 : Layout) (v w u : List Int) (ows : List String) : String :=
+def judgeAlg3 (cs n1 n2 n3 : String) (m1 m2 m3 : Layout) (v w u : List Int) (ows : List String) : String :=
   let n := m1.length
   let a (s : Nat) : Int := v.getD (m1.phys s) 0
   let b (s : Nat) : Int := w.getD (m2.phys s) 0
@@ -295,7 +308,12 @@ def judgeAlg3 (n1 n2 n3 : String) (m1 m2 m3 : Layout) (v w u : List Int) (ows : 
     match multiList ows key with | some xs => xs.length == k && xs.all ok | none => false
   let eqOk := if sk (4 * k1) = 0 then field ows "eqs" == some "-" else
     match multiField ows "eqs" with | some xs => xs.length == 4 * k1 && xs.all (· == "1") | none => false
+  let (ca, cb, cc, cw) := alg3Counts2 cs n (m1 == identity n) (m2 == identity n) (m3 == identity n) (n1 == n2) (n1 == n3) (n2 == n3)
   firstFail [
+    (every "f3a" ca (fun x => sameMultiset x (sems.map (fun s => (a s * 1000 + b s) * 1000 + a s))), "for_each-triples-by-colour"),
+    (every "f3b" cb (fun x => sameMultiset x (sems.map (fun s => (a s * 1000 + b s) * 1000 + b s))), "for_each-triples-by-colour"),
+    (every "f3c" cc (fun x => sameMultiset x (sems.map (fun s => (a s * 1000 + a s) * 1000 + c s))), "for_each-triples-by-colour"),
+    (every "trw" cw (fun x => bySem x m1 (fun s => a s * 16 + b s)), "transform2-by-colour"),
     (every "tr2" ctr2 (fun x => bySem x m3 (fun s => a s * 16 + b s)), "transform2-by-colour"),
     (every "trs" ctrs (fun x => bySem x m3 (fun s => a s * 16 + a s)), "transform2-same-source-by-colour"),
     (every "fe3" cfe3 (fun x => sameMultiset x (sems.map (fun s => (a s * 1000 + b s) * 1000 + c s))), "for_each-triples-by-colour"),
@@ -333,12 +351,12 @@ def judge (op obs : String) : String :=
                    flag "N0" "0", flag "N1" "0", flag "D" "0", flag "DN" "1"]
       | none => fail "shape"
     | _, _, _ => fail "bad-op"
-  | "alg3" :: _ :: _ :: n1 :: n2 :: n3 :: rest =>
+  | "alg3" :: cs :: _ :: n1 :: n2 :: n3 :: rest =>
     let (a, b, c) := splitBar3 rest
     match specOf n1, specOf n2, specOf n3, ints a, ints b, ints c with
     | some m1, some m2, some m3, some v, some w, some u =>
       if v.length ≠ m1.length ∨ w.length ≠ m1.length ∨ u.length ≠ m1.length ∨ m2.length ≠ m1.length ∨ m3.length ≠ m1.length then fail "bad-op"
-      else judgeAlg3 n1 n2 n3 m1 m2 m3 v w u ows
+      else judgeAlg3 cs n1 n2 n3 m1 m2 m3 v w u ows
     | _, _, _, _, _, _ => fail "bad-op"
   | "alg" :: _ :: _ :: l1 :: l2 :: rest =>
     let (a, b) := splitBar rest
